@@ -295,6 +295,9 @@ def _unit_points(rng: Rng, n, kind):
         # uniform over the whole of [0,1] needs n-1 | 2^k; otherwise use step 2^-k on a sub-range and stretch by a dyadic
         pts = [Fraction(i, n - 1) if _pow2(n - 1) else Fraction(i, 2 ** k) for i in range(n)]
         return pts
+    if kind == "hole":
+        # two dense clusters [0, 3/16] and [13/16, 1] (spacing 2^-8) with a hole of 5/8 between them
+        return [Fraction(i, 256) for i in range(0, 49)] + [Fraction(i, 256) for i in range(208, 257)]
     if kind.startswith("nearly_uniform"):
         # a regular grid whose spacings are jittered by a relative amount of about 2^-r (r = 7, 10, 17, 23: 1e-2 … 1e-7),
         # all points exact dyadic rationals; `nearly_uniform:<r>`
@@ -371,6 +374,8 @@ def _lp_case(rng: Rng, tier, force=None):
         kind = force.get("design", rng.choice(["uniform", "scattered", "scattered", "unsorted", "ties", "nearly_uniform:10", "nearly_uniform:20"]))
         if "n" in force:
             n = force["n"]
+        if kind == "hole":
+            n = 98
         g = _unit_points(rng, n, "scattered" if kind == "unsorted" else kind)
         g2 = None
     else:
@@ -393,6 +398,10 @@ def _lp_case(rng: Rng, tier, force=None):
     ykind = rng.choice(["rand", "rand", "smooth", "step", "const"])
     amp = rng.choice([Fraction(1), Fraction(1), Fraction(1), Fraction(2 ** 20), Fraction(1, 2 ** 20)])
     y = [amp * t for t in _responses(rng, n, g, ykind)]
+    if kind == "hole":
+        # responses bounded away from 0, so that a spurious 0 is outside their range
+        y = [amp * (Fraction(5) + rng.dyadic(-2, 2, 4)) for _ in range(n)]
+        ykind = "rand"
     y2 = rng.dyadics(n, -4, 4, 3)
     if dim == 1:
         coefs = [rng.dyadic(-2, 2, 2) for _ in range(degree + 1)]
@@ -434,6 +443,10 @@ def _lp_case(rng: Rng, tier, force=None):
             gq.append(lo1 + (hi1 - lo1) * Fraction(rng.randint(0, 64), 64))
             if dim == 2:
                 gq2.append(lo2 + (hi2 - lo2) * Fraction(rng.randint(0, 64), 64))
+    if kind == "hole":
+        # query points inside the design range, 3, 6, 10 and 20 bandwidths (h = 2^-6) away from every observation,
+        # plus two well-supported ones
+        gq = [Fraction(3, 16) + Fraction(kk, 64) for kk in (3, 6, 10, 20)] + [Fraction(3, 32), Fraction(29, 32)]
     # affine map for the invariance clause (a common rescaling, a shift per coordinate)
     a = rng.choice([Fraction(1), Fraction(2), Fraction(364), Fraction(1, 1024), Fraction(-1), Fraction(-3, 2), Fraction(7, 4)])
     b = rng.choice([Fraction(0), Fraction(1), Fraction(1000), Fraction(-5, 2)])
@@ -478,6 +491,10 @@ def gen_cases(rng: Rng, tier):
         head.append(dict(dim=1, kernel=kernel, degree=degree, design=f"nearly_uniform:{r}", own=True, n=[17, 33, 40, 65][j % 4],
                          hu=[Fraction(1, 8), Fraction(3, 16), Fraction(1, 4)][j % 3], dom=["unit", "doy", "neg", "shift1000"][j % 4]))
     head.append(dict(dim=1, kernel="epanechnikov", degree=1, design="uniform", own=True, n=33, hu=Fraction(1, 8), dom="unit"))
+    # absolute tolerances where only the RELATIVE size of the weights matters: holes in the design, query points far from
+    # every observation with the non-compact kernel, tiny bandwidths (the nano / milli domains)
+    for degree, dom in ((0, "unit"), (1, "doy"), (0, "nano"), (1, "unit"), (0, "shift1000"), (0, "giga")):
+        head.append(dict(dim=1, kernel="gaussian", degree=degree, design="hole", hu=Fraction(1, 64), dom=dom))
     for f in head:
         yield _lp_case(rng, tier, f)
     # the same relations through every entry point that smooths with LP and an explicit bandwidth, away from [0,1]
@@ -665,6 +682,20 @@ def run_impl(case):
     lph.predict(y=y2, x=x, x_new=q[:1])
     lph.kernel_name, lph.bandwidth, lph.degree = case["kernel"], h, case["degree"]
     out["hist"] = lph.predict(y=y, x=x, x_new=q).tolist()
+    # a common factor of the weights must not change the fit (C06.weights_scale_invariant): `_local_regression` with the
+    # kernel multiplied by 2^-60, 2^-30, 2^30, 2^60
+    x2d = x.reshape(-1, 1) if x.ndim == 1 else x
+    q2d = q.reshape(-1, 1) if q.ndim == 1 else q
+    kfun = lpm._kernel(case["kernel"])
+    dq = lp.poly_features.fit_transform(np.zeros((1, x2d.shape[1])))[0]
+    sc_out = {}
+    for e in (-60, -30, 0, 30, 60):
+        vals = []
+        for pts in q2d[:3]:
+            dm = lp.poly_features.fit_transform((x2d - pts) / h)
+            vals.append(float(lpm._local_regression(y, x2d, pts, dm, dq, h, (lambda u, c=2.0 ** e: c * kfun(u)))))
+        sc_out[str(e)] = vals
+    out["wscaled"] = sc_out
     # evaluation at the design's own points (x_new=None -> unique sorted sampling points; x_new = the sampling points)
     if case.get("own") and case["dim"] == 1:
         ux = np.unique(x)
@@ -995,6 +1026,16 @@ def oracle(case, impl):
             if not near(f, impl["own_none"][inv_[i_]], sc, 1e-10):
                 bad("pointwise", f"x_new = the sampling points gives {f!r} at {case['x'][i_]}, x_new=None gives {impl['own_none'][inv_[i_]]!r}", dom + ["own_points"])
                 break
+    # a common factor of the kernel weights is irrelevant
+    if "wscaled" in impl:
+        ref0 = impl["wscaled"]["0"]
+        for e, vals in impl["wscaled"].items():
+            for j, (f, g) in enumerate(zip(vals, ref0)):
+                if st[j] == "ok" and not near(f, g, sc, 1e-9):
+                    bad("weights_scale_invariant", f"kernel weights multiplied by 2^{e}: estimate {f!r} instead of {g!r} at query {j} ({case['kernel']}, degree {case['degree']}, h={case['h']}, n={case['n']})", dom)
+        for j, (f, g) in enumerate(zip(ref0, impl["base"])):
+            if st[j] == "ok" and not near(f, g, sc, 1e-10):
+                bad("pointwise", f"_local_regression gives {f!r}, predict {g!r} at query {j}", dom)
     # degree 0 (Nadaraya–Watson) preserves the range of the responses carrying positive weight (C06.degree0_in_range)
     if case["degree"] == 0:
         xs = _arr(case, "x", "x2")
